@@ -840,6 +840,8 @@ class LogicalLinkController(object):
         while True:
             client = socket.accept()
             with self.lock:
+                # from now on the service access point dispatches to it
+                socket.accepted.remove(client)
                 sap = self.sap[client.addr] if client.is_bound else None
                 if sap is None:
                     # link terminated while the connection was accepted
